@@ -2794,6 +2794,11 @@ BD_Shape<T>::add_space_dimensions_and_embed(const dimension_type m) {
   if (m == 0) {
     return;
   }
+  check_space_dimension_overflow(m, max_space_dimension() - space_dimension(),
+                                 "PPL::BD_Shape::",
+                                 "add_space_dimensions_and_embed(m)",
+                                 "adding m new space dimensions exceeds "
+                                 "the maximum allowed space dimension");
   const dimension_type space_dim = space_dimension();
   const dimension_type new_space_dim = space_dim + m;
   const bool was_zero_dim_univ = (!marked_empty() && space_dim == 0);
@@ -2823,6 +2828,11 @@ BD_Shape<T>::add_space_dimensions_and_project(const dimension_type m) {
   if (m == 0) {
     return;
   }
+  check_space_dimension_overflow(m, max_space_dimension() - space_dimension(),
+                                 "PPL::BD_Shape::",
+                                 "add_space_dimensions_and_project(m)",
+                                 "adding m new space dimensions exceeds "
+                                 "the maximum allowed space dimension");
   const dimension_type space_dim = space_dimension();
 
   // If `*this' was zero-dimensional, then we add `m' rows and columns.
